@@ -106,8 +106,11 @@ def _is_int(v):
     return isinstance(v, (int, np.integer)) and not isinstance(v, (bool, np.bool_))
 
 
-def _truth(tok):
+def _truth(tok, bool_spelling_only=False):
     tok = tok.strip()
+    if bool_spelling_only and tok in ("0", "1"):
+        # an integer-typed Removed column is outside the quantifier (lead's ruling, round 6): the call is counted out-of-domain
+        raise ValueError("integer-typed Removed column")
     if tok in ("True", "TRUE", "true", "1"):
         return True
     if tok in ("False", "FALSE", "false", "0"):
@@ -142,7 +145,7 @@ def read_indices(arg, numbered_from_1):
                 pos, out = 0, []
                 for l in lines[1:]:
                     cells = l.split(",")
-                    if c_gone is not None and _truth(cells[c_gone]):
+                    if c_gone is not None and _truth(cells[c_gone], bool_spelling_only=True):
                         continue
                     if _truth(cells[c_rm]):
                         out.append(pos)
